@@ -67,7 +67,7 @@ type scCaseC struct {
 // scEv is one line of the log.
 type scEv struct {
 	Seq    int             `json:"seq"`
-	Ev     string          `json:"ev"` // Reset | Provider | Begin | Report | End
+	Ev     string          `json:"ev"` // Reset | Provider | Begin | Report | End | RunBegin | RunEnd
 	Inst   string          `json:"inst,omitempty"`
 	Insts  []string        `json:"insts,omitempty"`
 	CaseID int             `json:"caseid,omitempty"`
@@ -81,6 +81,7 @@ type scEv struct {
 	Note   string          `json:"note,omitempty"`
 	N      int             `json:"n,omitempty"`
 	R      int             `json:"r,omitempty"`
+	First  int             `json:"first,omitempty"` // RunEnd: line number of the run's RunBegin
 }
 
 type scLog struct {
@@ -89,12 +90,14 @@ type scLog struct {
 	w   *vt.Writer
 }
 
-func (l *scLog) emit(e scEv) {
+// emit writes one line; the sequence number is the line number (written under the mutex: file order = sequence order).
+func (l *scLog) emit(e scEv) int {
 	l.mu.Lock()
+	defer l.mu.Unlock()
 	l.seq++
 	e.Seq = l.seq
-	l.w.Emit(e) // written under the mutex: file order = sequence order
-	l.mu.Unlock()
+	l.w.Emit(e)
+	return l.seq
 }
 
 // scAgg is the per-instance reporting aggregator mock.
@@ -372,8 +375,11 @@ func samplecodingMain(args []string) {
 		if err != nil {
 			panic(err)
 		}
-		l.emit(scEv{Ev: "Reset", Insts: []string{"m2"}})
-		for _, ln := range strings.Split(strings.TrimSpace(string(f)), "\n") {
+		for k, ln := range strings.Split(strings.TrimSpace(string(f)), "\n") {
+			if k%20 == 0 {
+				// a restart point for the trace walk: everything is idle here
+				l.emit(scEv{Ev: "Reset", Insts: []string{"m2"}})
+			}
 			var cs hwCase
 			if err := json.Unmarshal([]byte(ln), &cs); err != nil {
 				panic(err)
@@ -399,7 +405,7 @@ func scIdsMain(l *scLog, fs afero.Fs, rec *targets.Recorder, n, r, rounds int) {
 	c := json.RawMessage(`{"kind":"http","out":{"kind":"status","status":200}}`)
 	seed := int(vt.Seed())
 	for round, preload := range []bool{false, true}[:rounds] {
-		l.emit(scEv{Ev: "Reset", Insts: insts, Note: fmt.Sprintf("instances=%d acquisitions=%d preload=%v", n, r, preload)})
+		note := fmt.Sprintf("instances=%d acquisitions=%d preload=%v", n, r, preload)
 		var b strings.Builder
 		for k := 0; k < 7+seed%5; k++ {
 			fmt.Fprintf(&b, "/id/%d\n", k)
@@ -426,26 +432,31 @@ func scIdsMain(l *scLog, fs afero.Fs, rec *targets.Recorder, n, r, rounds int) {
 			guns = append(guns, g)
 		}
 		stop := hwRunProvider(prov, zl)
-		var wg sync.WaitGroup
-		for i := 0; i < n; i++ {
-			wg.Add(1)
-			go func(i int) {
-				defer wg.Done()
-				for k := 0; k < r; k++ {
-					a, ok := prov.Acquire()
-					if !ok {
-						return
+		first := l.emit(scEv{Ev: "RunBegin", N: n, R: r, Note: note})
+		const wave = 50 // acquisitions per instance between two restart points of the trace walk
+		for done := 0; done < r; done += wave {
+			l.emit(scEv{Ev: "Reset", Insts: insts}) // all instances are idle here (barrier below)
+			var wg sync.WaitGroup
+			for i := 0; i < n; i++ {
+				wg.Add(1)
+				go func(i int) {
+					defer wg.Done()
+					for k := done; k < r && k < done+wave; k++ {
+						a, ok := prov.Acquire()
+						if !ok {
+							return
+						}
+						scShoot(l, insts[i], guns[i], a, 0, c, nil)
+						prov.Release(a)
 					}
-					scShoot(l, insts[i], guns[i], a, 0, c, nil)
-					prov.Release(a)
-				}
-			}(i)
+				}(i)
+			}
+			wg.Wait()
 		}
-		wg.Wait()
 		if err := stop(); err != nil {
 			panic(err)
 		}
 		rec.Drain()
-		l.emit(scEv{Ev: "RunEnd", N: n, R: r})
+		l.emit(scEv{Ev: "RunEnd", N: n, R: r, First: first})
 	}
 }
